@@ -1690,6 +1690,22 @@ func checkCachePerRoutine(c *Ctx, rule string) {
 				}
 			}
 			if f == nil || rout == "" {
+				// the cache and the routine come as a pair out of a helper (`src, ok := c.blockSource(filter);
+				// src.cache.get(…, src.get)`): one pair per return of the helper
+				if pairs, ok := cachePairsFromHelper(call); ok {
+					for _, pr := range pairs {
+						if byCache[pr.cache] == nil {
+							byCache[pr.cache] = map[string]bool{}
+						}
+						byCache[pr.cache][pr.rout] = true
+						if byRoutine[pr.rout] == nil {
+							byRoutine[pr.rout] = map[*types.Var]bool{}
+						}
+						byRoutine[pr.rout][pr.cache] = true
+					}
+					n += len(pairs) - 1
+					continue
+				}
 				c.Violation(rule, fmt.Sprintf("%s/cache.get#%d", fnName(fn), n), call.Pos(), "cannot identify the cache field or the fetch routine of this cached fetch")
 				continue
 			}
@@ -1716,6 +1732,119 @@ func checkCachePerRoutine(c *Ctx, rule string) {
 	if n < 2 {
 		c.Violation(rule, "cached-fetches", cget.Pos(), fmt.Sprintf("expected >= 2 cached fetches, found %d", n))
 	}
+}
+
+type cachePair struct {
+	cache *types.Var
+	rout  string
+}
+
+// memberOfCallResult: v is member k of the struct a call hands back (its only result or its first)
+func memberOfCallResult(v ssa.Value) (*ssa.Call, int, bool) {
+	v = stripConv(v)
+	var base ssa.Value
+	k := -1
+	switch x := v.(type) {
+	case *ssa.Field:
+		base, k = x.X, x.Field
+	case *ssa.UnOp:
+		fa, ok := x.X.(*ssa.FieldAddr)
+		if !ok || x.Op != token.MUL {
+			return nil, 0, false
+		}
+		al, ok := fa.X.(*ssa.Alloc)
+		if !ok {
+			return nil, 0, false
+		}
+		cv := cellValue(al)
+		if cv == nil {
+			return nil, 0, false
+		}
+		base, k = cv, fa.Field
+	default:
+		return nil, 0, false
+	}
+	base = stripConv(base)
+	if e, ok := base.(*ssa.Extract); ok && e.Index == 0 {
+		base = e.Tuple
+	}
+	call, ok := base.(*ssa.Call)
+	if !ok {
+		return nil, 0, false
+	}
+	return call, k, true
+}
+
+func cachePairsFromHelper(call *ssa.Call) ([]cachePair, bool) {
+	hc, kc, ok := memberOfCallResult(call.Call.Args[0])
+	if !ok {
+		return nil, false
+	}
+	kr := -1
+	for _, a := range call.Call.Args[1:] {
+		if _, isFn := a.Type().Underlying().(*types.Signature); !isFn {
+			continue
+		}
+		if hc2, k2, ok2 := memberOfCallResult(a); ok2 && hc2 == hc {
+			kr = k2
+		}
+	}
+	h := staticCallee(hc)
+	if kr < 0 || h == nil || h.Blocks == nil {
+		return nil, false
+	}
+	var out []cachePair
+	for _, r := range returnsOf(h) {
+		v := stripConv(returnValues(r)[0])
+		if k, isK := v.(*ssa.Const); isK && k.Value == nil {
+			continue // the zero value: nothing to fetch from
+		}
+		u, ok := v.(*ssa.UnOp)
+		if !ok || u.Op != token.MUL {
+			return nil, false
+		}
+		al, ok := u.X.(*ssa.Alloc)
+		if !ok {
+			return nil, false
+		}
+		var pr cachePair
+		for _, ref := range *al.Referrers() {
+			fa, isFA := ref.(*ssa.FieldAddr)
+			if !isFA {
+				continue
+			}
+			for _, r2 := range *fa.Referrers() {
+				st, isSt := r2.(*ssa.Store)
+				if !isSt || st.Addr != ssa.Value(fa) {
+					continue
+				}
+				switch fa.Field {
+				case kc:
+					if pr.cache != nil {
+						return nil, false
+					}
+					pr.cache, _ = fieldOf(st.Val)
+				case kr:
+					if pr.rout != "" {
+						return nil, false
+					}
+					if mc, isMC := stripConv(st.Val).(*ssa.MakeClosure); isMC {
+						if obj, isF := mc.Fn.(*ssa.Function).Object().(*types.Func); isF && obj != nil {
+							pr.rout = obj.Name()
+						}
+					}
+					if fnv, isFn := stripConv(st.Val).(*ssa.Function); isFn {
+						pr.rout = fnv.Name()
+					}
+				}
+			}
+		}
+		if pr.cache == nil || pr.rout == "" {
+			return nil, false
+		}
+		out = append(out, pr)
+	}
+	return out, len(out) > 0
 }
 
 // checkLogsGrouping: in (*Client).logs every log is attached to the block and
